@@ -245,7 +245,11 @@ func hNondetInt64(in *Interp, g *G, fv *FuncV, a []Value) Value {
 }
 
 func hNondetString(in *Interp, g *G, fv *FuncV, a []Value) Value {
-	return in.newSym(constStr(a[0]), SStr, "string")
+	t := in.newSym(constStr(a[0]), SStr, "string")
+	// the empty string is the least string (part of the path condition: solver-side
+	// assertions would be lost on pop)
+	in.st.pc = append(in.st.pc, in.tc.StrLe(in.tc.Str(""), t))
+	return t
 }
 
 func hAssume(in *Interp, g *G, fv *FuncV, a []Value) Value {
